@@ -17,7 +17,7 @@ ERR = {"EmptyDatasetException": [1], "ValueError": [2]}
 
 
 def budget(tier):
-    return 1000 if tier == "quick" else 20000
+    return 5000 if tier == "quick" else 50000
 
 
 def names(rng, n):
